@@ -22,7 +22,8 @@ def _shard(args):
     c = suite_lru.run_columns_shard((seed, max(2, per // 3)))
     d = suite_cache.run_shard((seed, per))
     e = suite_lru.run_shared_ram((seed, max(3, per // 2)))
-    return a, b, c, d, e
+    f = suite_lru.run_columns_faults((seed, max(3, per // 2)))
+    return a, b, c, d, e, f
 
 
 def run(tier, seed, res, lean):
@@ -49,9 +50,12 @@ def run(tier, seed, res, lean):
     shared_bad = [b for o in outs for b in o[4][1]]
     for b in shared_bad[:3]:
         res.violations.append(Violation('c08-shared-layer', b['msg'][:300], {'suite': 'S-LRU', **b}))
+    fault_bad = [b for o in outs for b in o[5][1]]
+    for b in fault_bad[:3]:
+        res.violations.append(Violation('c08-columns-after-failure', b['msg'][:300], {'suite': 'S-COL', **b}))
     for b in c08_bad[:4]:
         res.violations.append(Violation('c08-memo', b['failures'][0]['msg'][:300], {'suite': 'S-CACHE', **b}))
-    found = lru_over or shard_oracle or col_problems or c08_bad or shared_bad
+    found = lru_over or shard_oracle or col_problems or c08_bad or shared_bad or fault_bad
     corr = (lru_bad[:1] and ('S-LRU', lru_bad[0])) or (shard_bad[:1] and ('S-COL', shard_bad[0])) or \
         (model_bad[:1] and ('S-CACHE', model_bad[0]))
     if corr and not found:
